@@ -138,10 +138,16 @@ func NewChannel(topicName string, channelName string, nsqd *NSQD,
 	return c
 }
 
-func (c *Channel) initPQ() {
+// initPQ (re)creates the in-flight and deferred structures. It returns, per
+// client, how many in-flight messages were dropped by the reset.
+func (c *Channel) initPQ() map[int64]int64 {
 	pqSize := int(math.Max(1, float64(c.nsqd.getOpts().MemQueueSize)/10))
 
 	c.inFlightMutex.Lock()
+	dropped := make(map[int64]int64)
+	for _, msg := range c.inFlightMessages {
+		dropped[msg.clientID]++
+	}
 	c.inFlightMessages = make(map[MessageID]*Message)
 	c.inFlightPQ = newInFlightPqueue(pqSize)
 	c.inFlightMutex.Unlock()
@@ -150,6 +156,8 @@ func (c *Channel) initPQ() {
 	c.deferredMessages = make(map[MessageID]*pqueue.Item)
 	c.deferredPQ = pqueue.New(pqSize)
 	c.deferredMutex.Unlock()
+
+	return dropped
 }
 
 // Exiting returns a boolean indicating if this channel is closed/exiting
@@ -210,10 +218,18 @@ func (c *Channel) Empty() error {
 	c.Lock()
 	defer c.Unlock()
 
-	c.initPQ()
+	// a consumer's in-flight count is reduced by exactly the messages dropped
+	// here: an answer (FIN/REQ/timeout) that took its message out of the
+	// in-flight map before the reset still decrements the count itself, and a
+	// delivery that registers its message after the reset keeps its increment
+	dropped := c.initPQ()
 	verifPoint("chan.empty.afterInitPQ")
-	for _, client := range c.clients {
-		client.Empty()
+	for id, client := range c.clients {
+		if d, ok := client.(interface{ Discarded(int64) }); ok {
+			d.Discarded(dropped[id])
+		} else {
+			client.Empty()
+		}
 	}
 
 	for {
